@@ -146,6 +146,7 @@ typedef struct {
   int        tcp_connect; /* 0 immediate success, 1 async success, 2 refused immediately, 3 refused later, 4 never completes */
   int        tcp_connect_delay_ms;
   int        tcp_close_after_answer; /* the server closes the stream right after each batch of answers it sent */
+  int      tc_over_tcp;            /* the server truncates over TCP too (its answer does not fit in 64 KiB, or it is broken) */
   int        udp_answers_tc_over_tcp; /* when a TC was sent, TCP gets a normal answer */
   /* cookies (server side) */
   int        ck_mode;      /* 0 none, 1 valid, 2.. see cookie profile */
@@ -182,6 +183,7 @@ typedef struct {
   uint8_t  local_addr[16];
   int      probe_like;
   int      rule_idx;
+  int      lib_try;   /* the library's try count of the query at this transmission (-1 unknown) */
   int      moved_by_list_change; /* its query was re-sent because the server list was replaced */
 } sim_tx_t;
 
@@ -247,6 +249,7 @@ typedef struct {
   int      tcp_write_mode;   /* 0 full, 1 random partial, 2 one byte */
   int      wblock_permille;  /* chance that a TCP write returns EWOULDBLOCK first */
   int      udp_wblock_permille; /* chance that a UDP send returns EWOULDBLOCK (socket buffer full) */
+  int      fail_downgrade_resend; /* errno for the first datagram that re-sends a query whose last transmission was answered FORMERR without OPT (0: none) */
   uint8_t  local4[4];
   uint8_t  local6[16];
   int      legacy_poll;      /* 0 sock_state_cb + ares_process_fds, 1 ares_fds+ares_process, 2 ares_getsock+ares_process_fd */
@@ -266,6 +269,7 @@ static vh_rng_t sim_rng;   /* scheduler / network randomness */
 static vh_rng_t seg_rng;   /* transport chopping only (so that A/B runs draw the same sim_rng sequence) */
 static int      sim_no_subms_jitter; /* fixed server delays (A/B differential) */
 static int64_t  sim_fin_delay_us; /* how long after the last answer bytes the server's close becomes visible */
+static uint32_t sim_error_soa_ttl;       /* >0: error replies (FORMERR, SERVFAIL, NOTIMP, REFUSED) carry an authority SOA with this TTL */
 static uint32_t sim_answer_auth_soa_ttl; /* >0: positive answers also carry an authority SOA with this (small) TTL */
 static int      sim_answer_foreign_class_every; /* addr profile: every n-th address record is class CH */
 static int      sim_answer_dup_every;           /* addr profile: every n-th address record is sent twice */
@@ -728,6 +732,24 @@ static ares_ssize_t vs_sendto(ares_socket_t s, const void *buf, size_t len, int 
   if (!v->is_tcp) {
     if (v->srv < 0 && sa != NULL) {
       v->srv = sim_find_srv(sa, 0);
+    }
+    if (sim_cfg.fail_downgrade_resend && len >= 2) {
+      /* the re-send that is directed at one server (EDNS downgrade) fails on the spot, once per case */
+      unsigned qid = ((unsigned)((const uint8_t *)buf)[0] << 8) | ((const uint8_t *)buf)[1];
+      int      i;
+      for (i = sim_ntx - 1; i >= 0; i--) {
+        if (sim_tx[i].qid == qid) {
+          if (sim_tx[i].action == SA_FORMERR_NOOPT && sim_tx[i].has_opt && !sim_tx[i].tcp) {
+            int err                       = sim_cfg.fail_downgrade_resend;
+            sim_cfg.fail_downgrade_resend = 0;
+            sim_faults_fired++;
+            sim_note("fault_fired_downgrade_resend");
+            errno = err;
+            return -1;
+          }
+          break;
+        }
+      }
     }
     if (sim_cfg.udp_wblock_permille && (int)vh_below(&seg_rng, 1000) < sim_cfg.udp_wblock_permille) {
       sim_note("udp_send_wouldblock");
